@@ -4,8 +4,10 @@
 // through Serialize, with a 33-byte write bound and a parse-back of kind and value.
 #include <cstring>
 #include <memory>
+#include <thread>
 
 #include "common/harness.hpp"
+#include "common/wb_edge.hpp"
 #include "common/refjson.hpp"
 #include "common/sonic_mv.hpp"
 
@@ -227,6 +229,23 @@ static void property(Src& s, Case& c) {
     c.subevals += n;
     if (c.counting) c.desc(std::to_string(n) + " integers in container shape " + std::to_string(shape) + ", buffer capacity " + std::to_string(cap));
     std::string m = check_container(vals, shape, depth, reuse, cap);
+    if (m.empty() && s.coin(1, 10)) {
+      // the same documents serialised by four threads at once, each thread on documents of its own: the spelling of an integer
+      // must not depend on what other threads are printing
+      c.cls("container:four-threads");
+      std::string tm[4];
+      std::vector<std::thread> th;
+      for (int t = 0; t < 4; t++)
+        th.emplace_back([&, t] {
+          std::vector<std::pair<uint64_t, bool>> mine = vals;
+          for (auto& v : mine) v.first = v.first * 0x9E3779B97F4A7C15ull + (uint64_t)t;  // other digits per thread
+          for (int rep = 0; rep < 12 && tm[t].empty(); rep++) tm[t] = check_container(t == 0 ? vals : mine, shape, depth, reuse, cap);
+        });
+      for (auto& x : th) x.join();
+      c.subevals += 48 * n;
+      for (int t = 0; t < 4 && m.empty(); t++)
+        if (!tm[t].empty()) m = "with four threads serialising their own documents: " + tm[t];
+    }
     if (!m.empty()) c.fail(m);
     return;
   }
@@ -275,6 +294,13 @@ static void property(Src& s, Case& c) {
   c.nt(v >= 100000000ull || (sign && (int64_t)v < 0));
   if (c.counting) c.desc((sign ? "int64 " + std::to_string((int64_t)v) : "uint64 " + std::to_string(v)));
   std::string m = sign ? check_i64((int64_t)v, through) : check_u64(v, through);
+  if (m.empty() && s.coin(1, 64)) {  // the same integer at the end of a document, with 18..48 bytes left in the write buffer
+    char want[32];
+    if (sign) snprintf(want, sizeof want, "%lld", (long long)(int64_t)v);
+    else snprintf(want, sizeof want, "%llu", (unsigned long long)v);
+    c.cls("write-buffer-edge-sweep");
+    m = wb_edge_sweep([&](Node& x) { if (sign) x.SetInt64((int64_t)v); else x.SetUint64(v); }, want, 18, 48, c.subevals);
+  }
   if (!m.empty()) c.fail(m);
 }
 
@@ -296,6 +322,20 @@ static void direct(const Fields& f, Case& c) {
     }
     auto num = [&](const char* k, long dflt) { const std::string* x = field(f, k); return x ? atol(x->c_str()) : dflt; };
     std::string m = check_container(vals, (int)num("shape", 0), (int)num("depth", 1), num("reuse", 0) != 0, (size_t)num("cap", 256));
+    if (m.empty()) {
+      std::string tm[4];
+      std::vector<std::thread> th;
+      for (int t = 0; t < 4; t++)
+        th.emplace_back([&, t] {
+          std::vector<std::pair<uint64_t, bool>> mine = vals;
+          for (auto& v : mine) v.first = v.first * 0x9E3779B97F4A7C15ull + (uint64_t)t;
+          for (int rep = 0; rep < 200 && tm[t].empty(); rep++)
+            tm[t] = check_container(t == 0 ? vals : mine, (int)num("shape", 0), (int)num("depth", 1), num("reuse", 0) != 0, (size_t)num("cap", 256));
+        });
+      for (auto& x : th) x.join();
+      for (int t = 0; t < 4 && m.empty(); t++)
+        if (!tm[t].empty()) m = "with four threads serialising their own documents: " + tm[t];
+    }
     if (!m.empty()) c.fail(m);
     return;
   }
